@@ -15,7 +15,8 @@ ID = "C05"
 LEVEL = "exploration"
 RULE = (
     "case = generated round-robin configuration (as C01: all nine samplers, all losses, ensemble 1-3; a fifth of the cases on "
-    "a grid of at most a few dozen points so that proposals collide with the history) and a total of n "
+    "a grid of at most a few dozen points so that proposals collide with the history; a quarter of the cases with restores into a "
+    "saving folder that another calibration used before) and a total of n "
     "batches; for n <= 4 every labelling of the n-1 gaps with {no cut, plain second calibrate(), checkpoint/restore/continue} "
     "(3^(n-1) segmented runs), for n up to 8 a seeded sample of labellings incl. chains of 2-3 restores. Oracle: at every "
     "boundary the segmented run's five history arrays equal, byte for byte, the same-length prefix of an uninterrupted twin, "
@@ -26,7 +27,7 @@ ASSUMPTIONS = [
     "as C01 (no HP-based filters; third-party determinism trusted)",
     "the RL scheduler is limited to one session by the quantifier and takes no part in cuts",
 ]
-REQUIRED_COUNTERS = {"tiny_grid_cases": 5, "segmented_runs": 150, "restore_cuts": 100, "plain_cuts": 100, "cuts_before_stateful": 80, "restore_chains": 10}
+REQUIRED_COUNTERS = {"saving_folder_used_before_by_another_run": 20, "tiny_grid_cases": 5, "segmented_runs": 150, "restore_cuts": 100, "plain_cuts": 100, "cuts_before_stateful": 80, "restore_chains": 10}
 REQUIRED_COUNTERS.update({f"cut_before_{k}": 1 for k in G.SAMPLER_KINDS})
 SHARDS = {"quick": 16, "thorough": 16}
 SHARD_WATCHDOG = {"quick": 1500, "thorough": 10800}
@@ -86,6 +87,17 @@ def run_case(desc, ctx):
             continue
         wit = {"config": cfg, "batches": n, "labelling": list(lab), "legend": "0 none, 1 second calibrate(), 2 checkpoint/restore/continue"}
         folder = str(ctx.scratch() / "ck")
+        if 2 in lab and i % 4 == 2:
+            # the saving folder was used before by another calibration (other loss, line-up, shapes): what is restored later must be this run
+            try:
+                prng = rng_for(desc["seed"], 5, 10**6 + i)
+                other_cfg = CG.gen_config(prng, kinds=G.HISTORY_FREE, n_samplers=2, max_bs=2)
+                with quiet():
+                    CG.build_calibrator(other_cfg, folder=folder).calibrate(int(prng.integers(1, 4)))
+                c["saving_folder_used_before_by_another_run"] = c.get("saving_folder_used_before_by_another_run", 0) + 1
+                wit["saving_folder_used_before_by_another_run"] = {"loss": other_cfg["loss"]["kind"], "lineup": [d["kind"] for d in other_cfg["lineup"]]}
+            except Exception:  # noqa: BLE001
+                pass
         try:
             with quiet():
                 cal = CG.build_calibrator(cfg, folder=folder)
